@@ -42,9 +42,17 @@ type KeySpec struct {
 	// BadConfig: the entry's config does not parse (cut short): the library has
 	// to leave it aside.
 	BadConfig bool `json:"bad_config,omitempty"`
+	// BadPriv: the config parses, the private key that goes with it does not.
+	BadPriv bool `json:"bad_priv,omitempty"`
 }
 
 func (k KeySpec) material() (priv, pub, cfg []byte) {
+	if k.BadPriv {
+		g := k
+		g.BadPriv = false
+		priv, pub, cfg = g.material()
+		return priv[:len(priv)-1], pub, cfg
+	}
 	if k.BadConfig {
 		g := k
 		g.BadConfig = false
